@@ -70,7 +70,7 @@ def _example_cases(max_nodes):
 def cases(rng: random.Random, tier: str):
     nmax = 5 if tier == "quick" else 6
     out = [dict(c) for c in _corpus()] + _example_cases(nmax + 1 if tier == "quick" else 7)
-    n = 700 if tier == "quick" else 5000
+    n = 3500 if tier == "quick" else 24000
     for k in range(n):
         g = R.gen_graph(rng, 2, nmax if k % 4 else 4)
         nodes = G.all_nodes(g)
@@ -202,14 +202,21 @@ def finding_key(case, res):
 
 
 MANIFEST = {
-    "text": ("Lean model of identify() (lines 1-7, p_parents, the carried estimand) tied to the real code by "
-             "differential correspondence; semantics `den` of expressions and the class of positive discrete "
-             "semi-Markovian SCMs compatible with the graph are Lean specifications. See Props/C01.lean for the "
-             "theorems proved (c-factor lemmas sink/split/ratio in Lemmas/QFactor.lean, soundness of the lines) and "
-             "for what is stated OPEN. Every run additionally evaluates each returned estimand exactly on random "
-             "compatible SCMs at every assignment (search oracle)."),
-    "note": ("Trusted: Lean kernel; axioms propext/Classical.choice/Quot.sound; the SCM class and `den` (Y0/Spec); the "
-             "hand-written model tied to the code by sampling; networkx's topological_sort taken as a parameter that "
-             "returns linear extensions."),
-    "technique": "Lean 4 theorems (c-factor algebra over finite sums, recursion invariant) + differential correspondence + exact-rational SCM evaluation oracle",
+    "text": ("Proof. Lean theorem id_sound: for every well-formed acyclic mixed graph G, all X and non-empty Y ⊆ V(G) with "
+             "X ∩ Y = ∅, whenever the model of identify() returns an estimand e, then for EVERY structural causal model M "
+             "compatible with G (discrete variables of any cardinality, positive rational parameters, independent root "
+             "latents shared only across bidirected edges) and EVERY assignment, the value of e on M's observational joint "
+             "equals M's P(y | do(x)) (truncated factorisation); id_free_irrelevant: the value depends on the assignment only "
+             "through X ∪ Y. Proved by the recursion invariant 'the carried estimand denotes Q[V_cur]' over lines 1-7 "
+             "(idAlg_sound) on top of the c-factor lemmas sink/split/ratio (Tian-Pearl Lemmas 1, 3, 4; Lemmas/QFactor.lean). "
+             "id_sound_acyclic: the same with an executable, provably correct topological sorter and relational acyclicity, "
+             "no assumption left about networkx. The model is of the FIXED code (fix d44daed: lines 6/7 take their "
+             "conditionals from the carried estimand; the pinned code returned P(Y|X) on the napkin graph) and is tied to "
+             "identify() on every run by differential correspondence; every returned estimand is additionally evaluated "
+             "exactly on random compatible SCMs at every assignment."),
+    "note": ("Trusted: Lean kernel; axioms propext/Classical.choice/Quot.sound; the specifications Y0/Spec/{Prob,Sem,Scm}.lean "
+             "(meaning of expressions, model class: latents with parents, continuous variables, non-positive distributions are "
+             "outside); the hand-written model tied to the code by sampling; networkx's topological_sort enters as a parameter "
+             "assumed to return a linear extension (TopoSound), which the correspondence feeds with the observed orders."),
+    "technique": "Lean 4 theorems (c-factor algebra over finite sums, recursion invariant over a well-founded model) + differential correspondence + exact-rational SCM evaluation oracle",
 }
